@@ -160,8 +160,8 @@ pub fn run(rep: &Report) {
     rep.assume("accounting is at order-0 granularity and only at quiescent points (no live write transaction); reading pages through the database warms its cache");
     rep.assume("'returns to its previous level' is restated as bounded progress: nothing pending free after all pins are gone and at most 3 empty durable commits");
     let (n, n_churn) = match rep.tier {
-        Tier::Quick => (1_500u64, 60u64),
-        Tier::Thorough => (60_000u64, 2_000u64),
+        Tier::Quick => (15_000u64, 400u64),
+        Tier::Thorough => (300_000u64, 6_000u64),
     };
     run_cases(
         rep,
